@@ -96,7 +96,7 @@ Definition item_inb (f : h5) (x : item) : bool :=
 Definition item_in (f : h5) (x : item) : Prop := item_inb f x = true.
 
 (* ------------------------------------------------------------------ results *)
-Inductive err := KeyError | TypeError | UserWarning | FileNotFoundError | OutOfFuel.
+Inductive err := KeyError | TypeError | AttributeError | UserWarning | FileNotFoundError | OutOfFuel.
 Inductive res (A : Type) := Ok (a : A) | Err (e : err).
 Arguments Ok {A} a. Arguments Err {A} e.
 Definition bind {A B} (r : res A) (k : A -> res B) : res B := match r with Ok a => k a | Err e => Err e end.
@@ -104,7 +104,8 @@ Notation "'do' x <- r ; k" := (bind r (fun x => k)) (at level 200, x pattern, r 
 
 Definition err_eqb (a b : err) : bool :=
   match a, b with
-  | KeyError, KeyError | TypeError, TypeError | UserWarning, UserWarning | FileNotFoundError, FileNotFoundError
+  | KeyError, KeyError | TypeError, TypeError | AttributeError, AttributeError | UserWarning, UserWarning
+  | FileNotFoundError, FileNotFoundError
   | OutOfFuel, OutOfFuel => true
   | _, _ => false
   end.
@@ -149,7 +150,7 @@ Record guards := {
   g_fu      : gkind;   (* fetch_uuids             try ...[entity_type] except KeyError: []         *)
   g_ws_root : gkind;   (* Workspace.fetch_or_create_root  root is not None ... else: rebuild       *)
   g_ws_load : gkind;   (* Workspace.load_entity           if attributes is None: return None       *)
-  g_ws_kid  : gkind    (* Workspace.fetch_children        recovered_object is None -> skipped      *)
+  g_ws_kid  : gkind    (* Workspace.fetch_children        if not (recovered_object is None or ...) *)
 }.
 
 Definition guards_of (rows : list (string * string * string * string * string)) : guards :=
@@ -172,7 +173,7 @@ Definition guards_of (rows : list (string * string * string * string * string)) 
      g_fu      := row_guard "H5Reader.fetch_uuids" "sub:<etype>" rows;
      g_ws_root := row_guard "Workspace.fetch_or_create_root" "none:root" rows;
      g_ws_load := row_guard "Workspace.load_entity" "none:attributes" rows;
-     g_ws_kid  := row_guard "Workspace.fetch_children" "none:recovered_object" rows |}.
+     g_ws_kid  := row_guard "Workspace.fetch_children" "none:recovered_object#2" rows |}.
 
 (* the guards of the current source *)
 Definition G : guards := guards_of reader_rows.
@@ -290,7 +291,7 @@ Definition fetch_attributes (g : guards) (f : h5) (u : uid) (ek : option ekind)
                         end
             end;
   match ent with
-  | None => if absorbs (g_fa_none g) then Ok None else Err TypeError   (* None.attrs *)
+  | None => if absorbs (g_fa_none g) then Ok None else Err AttributeError   (* None.attrs *)
   | Some (ea, en) =>
       do ty <- glookup (g_fa_type g) (sub f ea KType);
       do tv <- match ty with None => Ok None | Some (ta, tn) => do v <- fetch_type_attributes g f ta tn; Ok (Some v) end;
@@ -423,7 +424,7 @@ Fixpoint load_ent (fuel : nat) (g : guards) (f : h5) (reg : list uid) (c : N * e
       else
         do v <- load_entity g f (U (fst c)) (Some (snd c)) parent;
         match v with
-        | None => if absorbs (g_ws_kid g) then Ok ([], reg) else Err TypeError
+        | None => if absorbs (g_ws_kid g) then Ok ([], reg) else Err AttributeError   (* None.on_file *)
         | Some r =>
             if is_container (snd c) then
               do kids <- fetch_children g f (r_uid r) (snd c);
@@ -467,7 +468,7 @@ Definition load (fuel : nat) (g : guards) (f : h5) : res tree :=
             | Err e => Err e
             | Ok (sub, _) => Ok {| t_proj := n_attrs tn; t_root := r_uid new_root; t_ents := new_root :: sub |}
             end
-          else Err TypeError
+          else Err AttributeError
       end
   end.
 
@@ -903,6 +904,6 @@ Definition consumed_sites : list (string * string * gkind) :=
    ("H5Reader.fetch_children", "iter:entity.items", GIter); ("H5Reader.fetch_values", "sub:'Data'#2", GTry);
    ("H5Reader.fetch_array_attribute", "sub:<label>", GTry); ("H5Reader.fetch_metadata", "sub:<label>", GTry);
    ("H5Reader.fetch_uuids", "sub:<etype>", GTry); ("Workspace.fetch_or_create_root", "none:root", GHandled);
-   ("Workspace.load_entity", "none:attributes", GHandled); ("Workspace.fetch_children", "none:recovered_object", GHandled)].
+   ("Workspace.load_entity", "none:attributes", GHandled); ("Workspace.fetch_children", "none:recovered_object#2", GHandled)].
 Definition site_okb (c : string * string * gkind) : bool :=
   match c with (f, st, g) => gkind_eqb (row_guard f st reader_rows) g end.
